@@ -432,3 +432,6 @@ SUBCHECKS = [
     SubCheck("bech32_arbitrary", o_bech32_arbitrary, strategy=s_bech32_arbitrary, budget=(3000, 300000),
              rule="arbitrary 5-bit symbol strings under a known hrp, checksummed with the Bech32 / Bech32m / a foreign constant or not at all: accept <=> reference decoder accepts, and same (version, program)"),
 ]
+
+# thorough tier: coverage-guided campaigns (runs per worker, 4 workers each)
+FUZZ = {"bech32_arbitrary": 60000, "b58_strings_generated": 60000, "bech32_unicode": 40000, "b58check_corruption": 40000}
